@@ -32,6 +32,9 @@ def shards(tier):
 STARTS = ["0", "2.5", "4.95", "5.95", "-0.05", "-125.4", "-180", "-90", "165.7", "31.5", "0.001", "359.9", "3.95",
           "-34.85", "-47.95", "5.0", "1.05", "-0.5", "100.25", "-179.975", "12.3", "-7.7", "0.3", "6.0", "4.0"]
 STEPS = ["0.1", "0.05", "0.2", "0.25", "0.5", "1", "0.01", "0.025", "0.3"]
+# "awkward" grids: first edge small compared with the step, step not a short binary fraction (0.1/0.3, -0.05/0.15, 0.06/0.01 ...)
+ODD_STARTS = ["0.1", "-0.05", "0.2", "0.06", "0.12", "0.15", "0.3", "0.7", "1.1", "0.05", "-0.1", "0.01"]
+ODD_STEPS = ["0.3", "0.15", "0.6", "0.7", "0.9", "0.35", "0.45", "0.01", "0.02", "0.03", "0.07", "1.3"]
 NS_QUICK = [1, 2, 3, 10, 31, 65, 76, 361]
 NS_THOR = [1, 2, 3, 10, 31, 65, 76, 361, 1801, 3601]
 OFFS = numpy.array([0, 1, 2, 3, 4, 8, 16, 32, 64, 128, 256, 512, 1024, 2048, 4096, 2 ** 13, 2 ** 14, 2 ** 16, 2 ** 18,
@@ -238,6 +241,14 @@ def run(ctx):
                 kinds = ("array",) if n > 10 else ("array", "scalar", "zerod", "list")
                 dts = ("float64",) if n > 80 else ("float64", "float32", "int64")
                 drive_grid(ctx, bins, rng, "dec:%s:%s:%d" % (s, h, n), kinds=kinds, dtypes=dts)
+    # 1b. awkward grids (every edge probed: the failure mode needs a high bin index)
+    for s in ODD_STARTS:
+        for h in ODD_STEPS:
+            ci += 1
+            if not ctx.mine(ci) or (not thorough and ci % 2):
+                continue
+            bins = decimal_bins(s, h, 400 if thorough else 200)
+            drive_grid(ctx, bins, rng, "odd:%s:%s" % (s, h))
     # 2. random decimal grids (0-3 digits)
     nrand = 4000 if thorough else 120
     for j in range(nrand):
@@ -247,7 +258,9 @@ def run(ctx):
         r = ctx.rng("c02rand", j)
         digits = int(r.integers(0, 4))
         start = round(float(r.uniform(-400, 400)), digits)
-        h = STEPS[int(r.integers(0, len(STEPS)))]
+        h = (STEPS + ODD_STEPS)[int(r.integers(0, len(STEPS) + len(ODD_STEPS)))]
+        if j % 3 == 0:
+            start = round(float(r.uniform(-1.5, 1.5)), int(r.integers(1, 3)))        # small first edges
         n = int(r.choice([1, 2, 5, 20, 100, 500, 2000] if thorough else [1, 2, 5, 20, 100, 400]))
         bins = decimal_bins(repr(start), h, n)
         drive_grid(ctx, bins, r, "rand:%r:%s:%d" % (start, h, n))
